@@ -19,7 +19,7 @@ ASSUMPTIONS = ['np.random.choice(ids, n, replace=False) returns n distinct eleme
 
 def impl(case):
     from phylib.io.array import SpikeSelector, _spikes_per_cluster
-    sc = np.array(case['clusters'], dtype=np.int64)
+    sc = np.array(case['clusters'], dtype=case.get('scdtype', 'int64'))     # narrow dtypes: spike ids must not inherit them
     st = np.array(case['times'], dtype=case.get('tdtype', 'int64'))
     spc = _spikes_per_cluster(sc) if len(sc) else {}
     np.random.seed(case.get('rs', 0))
@@ -40,7 +40,7 @@ def impl(case):
 
 
 def model_query(case, impl_res):
-    q = {k: v for k, v in case.items() if k not in ('tdtype', 'rs', 'gscale', 'countkind', 'reqkind')}
+    q = {k: v for k, v in case.items() if k not in ('tdtype', 'rs', 'gscale', 'countkind', 'reqkind', 'scdtype')}
     q['times'] = [t * case.get('gscale', 1) for t in case['times']]
     q['op'] = 'select'
     if 'ok' in impl_res:
@@ -80,6 +80,7 @@ def tally(rep, case, impl_res, ans):
     rep.count('subset:%s' % (case.get('subset') is not None))
     rep.count('tdtype:%s' % case.get('tdtype', 'int64'))
     rep.count('count_type:%s' % case.get('countkind', 'py'))
+    rep.count('clusters_dtype:%s%s' % (case.get('scdtype', 'int64'), ' (>255 spikes)' if len(case['times']) > 255 else ''))
     rep.count('requested_as:%s' % case.get('reqkind', 'list'))
     rep.count('grid:%s' % ('integer' if case.get('gscale', 1) == 1 else 'fractional(1/%d)' % case['gscale']))
     if case.get('subset') is not None and len(set(case['subset'])) != len(case['subset']):
@@ -133,6 +134,15 @@ def gen(tier, rng):
                     yield dict(p=PID, times=list(times), clusters=clusters, bounds=bounds, n_kept=nk,
                                count=[None, 1, 0, 2][k % 4], req=[[0, 1], [1], [5, 0, 0], [1, 0]][k % 4],
                                subset_chunks=bool(k % 5 != 0), subset=None, rs=k)
+    for j in range(6 if q else 60):
+        ns = rng.randrange(260, 600)
+        bounds = sorted(rng.sample(range(0, 1000), rng.randrange(2, 9)))
+        times = sorted(rng.randrange(0, 1000) for _ in range(ns))
+        clusters = [rng.randrange(0, 4) for _ in range(ns)]
+        yield dict(p=PID, times=times, clusters=clusters, bounds=bounds, n_kept=rng.randrange(1, 7),
+                   count=rng.pick([None, 0, 3, 500]), req=[rng.randrange(0, 5) for _ in range(rng.randrange(1, 4))],
+                   subset_chunks=rng.random() < .6, subset=None, tdtype='int64', rs=j,
+                   scdtype=['uint8', 'int8', 'uint8'][j % 3])
     for _ in range(12000 if q else 300000):
         nb = rng.randrange(2, 9)
         bounds = sorted(rng.sample(range(0, 31), nb))
@@ -145,6 +155,7 @@ def gen(tier, rng):
                  count=rng.pick([None, 0, -1, 1, 2, 5, 100]), req=req, subset_chunks=rng.random() < .7,
                  subset=None, tdtype=rng.pick(['int64', 'uint64', 'float64']), rs=rng.randrange(10 ** 6),
                  countkind=rng.pick(['py', 'py', 'int64', 'int32', 'intp']), reqkind=rng.pick(['list', 'list', 'tuple', 'array']))
+        c['scdtype'] = rng.pick(['int64', 'int64', 'int32', 'uint16', 'uint8', 'int8'])
         if rng.random() < .4 and ns:
             c['subset'] = sorted(rng.sample(range(ns), rng.randrange(0, ns + 1)))
             if rng.random() < .3 and c['subset']:
